@@ -9,7 +9,9 @@ class C13(flow.Spec):
     rule = ("a real agent with a real subscription (SubsManager/Matcher), histories of writes and candidate batches, then a stop: "
             "G graceful (tripwire, drop_handles, pending handles awaited - the sequence of command/agent.rs), also with "
             "unprocessed candidates; S graceful with transactions committed while the matcher is draining (after the tripwire, "
-            "before the handles are dropped), with and without unprocessed candidates at the signal; C the listeners are gone (handle removed, matcher cancelled), more rows are written, then a "
+            "before the handles are dropped), with and without unprocessed candidates at the signal; T a local transaction is "
+            "acknowledged and the node shuts down at once (its broadcast_changes task, which feeds the subscriptions, has only been "
+            "spawned); C the listeners are gone (handle removed, matcher cancelled), more rows are written, then a "
             "graceful shutdown; K kill (files copied as they are); D kill while the matcher is draining. The node is restarted "
             "on the copied files with the real setup(); two such phases per history, then one more batch. Observed: meta.state "
             "found at start, whether the subscription was restored (same id) or its directory removed, restored rows vs the "
@@ -37,7 +39,7 @@ class C13(flow.Spec):
                         ops.append("W %d" % rnd.randrange(1, 4))
                     else:
                         ops.append("F")
-                stop = rnd.choice(["G", "G", "S", "S", "C", "K", "D"])
+                stop = rnd.choice(["G", "G", "S", "S", "C", "K", "D", "T"])
                 tags.add("stop-" + stop)
                 if ops and ops[-1].startswith("W"):
                     tags.add("pending-at-stop")
@@ -79,6 +81,9 @@ class C13(flow.Spec):
                 toks += ["TR", "UN", "DD"]
             elif stop == "S":
                 toks += ["TR", "W", "UN", "DD"]
+            elif stop == "T":
+                # the transaction's candidates are produced by a task that runs after the handles are gone
+                toks += ["TR", "UN", "W", "DD"]
             elif stop == "C":
                 toks += ["UN", "CA0", "W", "TR", "UN", "DD"]
             elif stop == "D":
@@ -187,6 +192,9 @@ class C13(flow.Spec):
             # everything later is the same stale subscription being carried along
             if all(r == "stale" for _, r in fails):
                 return "cancelled-then-restored"
+        if first[1] == "stale" and first[0] != "final" and phases[first[0]][1] == "T":
+            if all(r == "stale" for _, r in fails):
+                return "write-acknowledged-at-shutdown"
         return None
 
 
